@@ -179,11 +179,14 @@ pub fn generate(r: &mut Rng, tier: Tier, group: u64) -> serde_json::Value {
         };
         return serde_json::to_value(sc).unwrap();
     }
-    let mode = match r.below(20) {
-        0..=6 => "gitfaults",
-        7..=13 => "argv",
-        14..=15 => "storage",
-        16..=17 => "misc",
+    // the mode is stratified over the scenario index (not drawn), so that a small batch such as the
+    // quick tier always contains every mode in fixed proportions
+    let slot = (group - SYSTEMATIC_GROUPS.min(group)) % 10;
+    let mode = match slot {
+        0 | 2 | 4 | 7 => "gitfaults",
+        1 | 5 | 8 => "argv",
+        3 => "storage",
+        6 => "misc",
         _ => if tier == Tier::Thorough { "mutate" } else { "gitfaults" },
     };
     let (actors, mut ops, _) = c02::gen_history(r, 5, 12);
@@ -191,8 +194,15 @@ pub fn generate(r: &mut Rng, tier: Tier, group: u64) -> serde_json::Value {
     let mut commands = vec![];
     match mode {
         "gitfaults" | "mutate" => {
-            if r.chance(1, 8) {
+            if slot == 7 {
                 degenerate = r.pick(&["no-git", "git-file", "empty-repo", "weird-refs"]).to_string();
+            }
+            // every other healthy world ends on a branch whose name is long and multi-byte, so that git's
+            // own (valid) answers are long, non-ASCII text
+            if degenerate.is_empty() && group % 2 == 0 {
+                ops.push(Op::Commit { actor: 0, dt: 1, adt: 0, with_file: false });
+                ops.push(Op::Branch { name: crate::names::long_multibyte_branch(r), from: None });
+                ops.push(Op::CheckoutNewest);
             }
             commands.push(git_cmd(r));
             if r.chance(1, 3) {
@@ -748,8 +758,8 @@ pub fn execute(ctx: &Ctx, scv: &serde_json::Value, rd: &RunDir, stats: &mut Stat
                 for kind in &persistent_kinds {
                     for target in subs.iter().map(|s| format!("sub:{s}")).chain(std::iter::once("*".to_string())) {
                         let case = format!("c{ci}:persist:{target}:{kind}");
-                        // quick tier: every kind on every invocation ("*"), half of the per-sub-command ones
-                        if ctx.tier == Tier::Quick && sc.only.is_none() && target != "*" && !rn.pick(&case, 2) {
+                        // quick tier: every kind on every invocation ("*"), a third of the per-sub-command ones
+                        if ctx.tier == Tier::Quick && sc.only.is_none() && target != "*" && !rn.pick(&case, 3) {
                             continue;
                         }
                         if !rn.wanted(&case) {
